@@ -8,7 +8,7 @@
    some history  new ; op ; ... ; op  with small weights. *)
 From Coq Require Import NArith ZArith List Permutation.
 From Coq Require Import Sorted.
-From LV Require Import model.Wlru spec.LruSpec spec.LruRecency proofs.WlruProofs proofs.WlruRecency.
+From LV Require Import model.Wlru spec.LruSpec spec.LruRecency proofs.WlruProofs proofs.WlruRecency proofs.WlruConserve.
 Import ListNotations.
 Local Open Scope N_scope.
 
@@ -115,9 +115,9 @@ Section C29.
 
   Theorem C29_resize_evicts_oldest :
     forall mw ms (c c' : cache K V) lg n,
-    reachable keqb c -> small mw -> resize mw ms c = Some (c', lg, n) ->
+    reachable keqb c -> small mw -> resize mw ms c = (c', lg, n) ->
     map fst lg ++ keys c' = keys c /\ Permutation (lg ++ pairs c') (pairs c) /\
-    n = N.of_nat (length lg) /\ c_max_weight c' = mw /\ c_max_size c' = z_to_N ms /\ z_neg ms = false.
+    n = N.of_nat (length lg) /\ c_max_weight c' = mw /\ c_max_size c' = z_to_N ms.
   Proof. exact (resize_lru_reach keqb keqb_spec). Qed.
 
   (* 7. The specification read on its own: what survives a trim is the LONGEST suffix
@@ -128,6 +128,16 @@ Section C29.
     ev ++ kp = l /\ fits mw ms kp = true /\
     forall ev' kp', ev' ++ kp' = l -> fits mw ms kp' = true -> (length kp' <= length kp)%nat.
   Proof. intros mw ms l ev kp H; split; [exact (trim_split _ _ _ _ _ H) | split; [exact (trim_fits _ _ _ _ _ H) | exact (trim_longest _ _ _ _ _ H)]]. Qed.
+
+  (* 6'. ... and for whole histories: everything ever inserted (read off the operations and
+        their visible results) is, as a multiset, what the callback was told + what is still
+        cached + the values an Add replaced in place (no callback for those, as in the Go code).
+        Hence no entry is reported twice and nothing is reported that was not inserted. *)
+  Theorem C29_history_reports_each_removed_entry_once :
+    forall mw ms ops (c0 c : cache K V) tr,
+    small mw -> Forall op_small ops -> new mw ms = Some c0 -> run keqb c0 ops = (c, tr) ->
+    Permutation (reported tr ++ pairs c ++ overwritten keqb c0 ops) (inserted ops tr).
+  Proof. exact (history_conserves keqb keqb_spec). Qed.
 
   (* 8. LRU order against a notion of recency that mentions no cache state
         (spec/LruRecency.v: time of the last Add / successful Get / adding ContainsOrAdd or
@@ -182,10 +192,15 @@ Proof.
   eexists. split; [reflexivity|]. split; [repeat constructor|]. split; [reflexivity | vm_compute; reflexivity].
 Qed.
 
-(* rejected configurations: the constructor refuses a negative size; Resize with a negative
-   size does not return (modelled as RDiverge and not part of any history's domain) *)
-Example C29_ex_negative_size : @new N N 3 (-1)%Z = None /\ @s_new N N 3 (-1)%Z = None.
-Proof. split; reflexivity. Qed.
+(* negative sizes: the constructor refuses them; the repaired Resize reads them as 0 (the
+   pinned tree's Resize did not return: model [resize_old], Example resize_old_refuted in
+   proofs/WlruProofs.v) *)
+Example C29_ex_negative_size :
+  @new N N 3 (-1)%Z = None /\ @s_new N N 3 (-1)%Z = None /\
+  (forall c0, new 3 2%Z = Some c0 ->
+     snd (run N.eqb c0 [OAdd 1 10 1; OAdd 2 20 1; OResize 3 (-1); OAdd 3 30 0; OLen]) =
+       [(RCount 0, []); (RCount 0, []); (RCount 2, [(1, 10); (2, 20)]); (RCount 1, [(3, 30)]); (RNum 0, [])]).
+Proof. split; [reflexivity | split; [reflexivity|]]. intros c0 [= <-]. vm_compute. reflexivity. Qed.
 
 Print Assumptions C29_bounds_after_every_history.
 Print Assumptions C29_refines_lru_spec.
@@ -199,6 +214,7 @@ Print Assumptions C29_remove_reports_once.
 Print Assumptions C29_remove_oldest_reports_once.
 Print Assumptions C29_purge_reports_everything.
 Print Assumptions C29_resize_evicts_oldest.
+Print Assumptions C29_history_reports_each_removed_entry_once.
 Print Assumptions C29_spec_keeps_longest_fitting_suffix.
 Print Assumptions C29_keys_sorted_by_last_use.
 Print Assumptions C29_evicted_used_less_recently_than_kept.
